@@ -156,27 +156,38 @@ def corruption_test(run, prop, src_dir, corrupt_fn, n=8):
 # structured families enumerated by TLC (spec/Families.tla, spec/MC_Families.tla) -> real code
 # ---------------------------------------------------------------------------------------------
 FAM_STRIDE = {  # family: (quick stride, thorough stride); stride 1 = exhaustive
-    "EP": (331, 6), "EPEDGE": (1, 1), "ONLYEP": (7, 1), "PIN": (53, 1), "CASTLE": (29, 1),
-    "PROMO": (2, 1), "MAT": (61, 2), "CHK": (1999, 37), "AMBIG": (997, 11), "RAW": (1, 1), "MINOR": (23, 1), "MULTICHK": (499, 3), "ROOKCAP": (1, 1), "EPCHK": (997, 9),
+    "EP": (331, 6), "EPEDGE": (1, 1), "ONLYEP": (7, 1), "PIN": (53, 1), "CASTLE": (5, 1),
+    "PROMO": (2, 1), "MAT": (61, 2), "CHK": (1999, 37), "AMBIG": (997, 11), "RAW": (1, 1), "MINOR": (23, 1), "MULTICHK": (499, 3), "ROOKCAP": (1, 1), "EPCHK": (997, 9), "STALEMIN": (3, 1), "EPX": (13, 1), "EPCHKX": (41, 1),
 }
 FAMS_FOR = {
-    "C01": ["EP", "EPEDGE", "ONLYEP", "PIN", "CASTLE", "PROMO", "CHK"],
+    "C01": ["EP", "EPX", "EPEDGE", "ONLYEP", "PIN", "CASTLE", "PROMO", "CHK"],
     "C03": ["EP", "EPEDGE", "CASTLE", "PROMO", "MAT", "ROOKCAP"],
     "C06": ["EP", "EPEDGE", "PIN", "CASTLE", "PROMO", "CHK"],
-    "C07": ["EP", "ONLYEP", "PIN", "MAT", "MINOR", "CHK", "CASTLE"],
+    "C07": ["EPX", "ONLYEP", "PIN", "MAT", "MINOR", "STALEMIN", "CHK", "CASTLE"],
     "C16": ["PIN", "CHK", "CASTLE", "MULTICHK", "EP"],
     "C04": ["EP", "CASTLE", "PROMO", "ROOKCAP"],
     "C05": ["EP", "CASTLE", "PROMO", "ROOKCAP"],
-    "C09": ["AMBIG", "PIN", "PROMO", "EP", "EPEDGE", "EPCHK", "CASTLE"],
-    "C10": ["EP", "EPEDGE", "CASTLE", "PROMO"],
+    "C09": ["AMBIG", "PIN", "PROMO", "EPX", "EPEDGE", "EPCHKX", "CASTLE"],
+    "C10": ["EPX", "EPEDGE", "CASTLE", "PROMO"],
     "C11": ["RAW", "EPEDGE", "CASTLE"],
-    "C18": ["EP", "ONLYEP", "CASTLE", "MAT", "MINOR", "PIN"],
+    "C18": ["EP", "ONLYEP", "CASTLE", "ROOKCAP", "MAT", "MINOR", "PIN", "CHK"],
+    "C14": ["STALEMIN", "MINOR", "MAT"],
+    "C17": ["PROMO", "AMBIG", "CASTLE"],
     "C19": ["CHK", "AMBIG"],
-    "C02": ["EP", "EPEDGE", "ONLYEP", "PROMO", "ROOKCAP", "CASTLE", "PIN"],
-    "C13": ["EP", "PROMO", "ROOKCAP", "CASTLE", "PIN"],
+    "C02": ["EPX", "EPEDGE", "ONLYEP", "PROMO", "ROOKCAP", "CASTLE", "PIN"],
+    "C13": ["EPX", "PROMO", "ROOKCAP", "CASTLE", "PIN"],
 }
 # families whose positions are expensive per event (SAN: ~150 texts, UCI: 20 481 strings): thinner samples
-FAM_MULT = {"C04": 5, "C05": 5, "C09": 6, "C10": 4, "C18": 2, "C02": 12, "C13": 12}
+FAM_MULT = {"C04": 5, "C05": 5, "C09": 5, "C10": 4, "C18": 3, "C02": 8, "C13": 8, "C14": 4, "C17": 8}
+
+
+# per-property overrides of the family strides (quick, thorough) where one position costs many events
+FAM_STRIDE_FOR = {
+    "C04": {"CASTLE": (80, 4)},
+    "C05": {"CASTLE": (80, 4)},
+    "C02": {"EPX": (60, 4), "EPEDGE": (6, 1), "ONLYEP": (60, 4), "PROMO": (20, 1), "ROOKCAP": (4, 1), "CASTLE": (300, 10), "PIN": (2000, 60)},
+    "C13": {"EPX": (80, 4), "PROMO": (25, 1), "ROOKCAP": (4, 1), "CASTLE": (400, 10), "PIN": (3000, 60)},
+}
 
 
 def mc_notation(run, tier):
@@ -251,6 +262,9 @@ def families(run, prop, tier, seed, binary, ident_fn, classify_fn, payload_fn=No
     # session properties replay ~35 make/unmake pairs per position: sample the families more thinly
     mult = FAM_MULT.get(prop, 1)
     stride = {f: (FAM_STRIDE[f][qi] * mult if FAM_STRIDE[f][qi] > 1 or mult == 1 else (3 if qi == 0 else 1)) for f in fams}
+    for f, v in FAM_STRIDE_FOR.get(prop, {}).items():
+        if f in stride:
+            stride[f] = v[qi]
     with ThreadPoolExecutor(max_workers=len(fams)) as ex:
         lists = list(ex.map(lambda f: enumerate_family(run, f, stride[f], seed, wk), fams))
     counts = {f: len(l) for f, l in zip(fams, lists)}
@@ -369,7 +383,11 @@ def split_sessions(evs):
 def corruption_sessions(run, prop, src_dir, n=6):
     """Flip one logged field inside otherwise genuine sessions; every corrupted session must be rejected."""
     shards = sorted(glob.glob(os.path.join(src_dir, "shard_*.ndjson")))
-    sess = split_sessions(read_lines(shards[0])) if shards else []
+    sess = []
+    for sh in shards:
+        sess += split_sessions(read_lines(sh))
+        if len(sess) >= 12:
+            break
     bad = []
     for s in sess:
         want = "unmake" if prop == "C04" else "make"
@@ -527,7 +545,7 @@ class Classifier:
             if k == "cap" and ev.get("semi_len", 0) >= 60:
                 return fen_of(ev)
             if k == "parse":
-                return ev["what"] + ":" + txt(ev["text"]) + ":" + chessfmt.pos_to_fen(ev["pos"])
+                return ev["what"] + ":" + txt(ev["text"]) + ":" + (chessfmt.pos_to_fen(ev["pos"]) if "pos" in ev else "")
         elif p == "C20":
             return f"{k}#{self.idx}"
         elif p == "C12":
@@ -698,7 +716,7 @@ CHAIN_MODELS = {  # model: (in quick?, probes that must be reachable)
 }
 
 
-CHAIN_MODELS_FOR = {"C13": ["knights1", "ep"], "C14": ["knights1", "clock"], "C17": ["castle", "clock"]}
+CHAIN_MODELS_FOR = {"C13": ["ep"], "C14": ["knights1", "clock"], "C17": ["castle"]}
 
 
 def mc_chain(run, tier):
